@@ -1,7 +1,7 @@
 (* C12 — the statements of Spec/C12_Spec.v from the per-source developments. *)
 From BV Require Import Base.Prelude Model.Lifecycle Spec.C12_Spec Proofs.C12_Sched.
 From BV Require Proofs.C12_Eternal Proofs.C12_Joining Proofs.C12_JoiningLive Proofs.C12_Subscription
-  Proofs.C12_MuxBase Proofs.C12_MuxMutex Proofs.C12_MuxShut Proofs.C12_MuxLive Proofs.C12_FileSource.
+  Proofs.C12_MuxBase Proofs.C12_MuxMutex Proofs.C12_MuxShut Proofs.C12_MuxLive Proofs.C12_FileSource Proofs.C12_FileLive.
 
 Lemma is_close_eq : forall x, is_close x = true -> x = Some SClose.
 Proof. intros [[]|]; simpl; intros; try discriminate; reflexivity. Qed.
@@ -46,10 +46,18 @@ Proof.
     apply C12_MuxLive.mx_fair_termination; assumption.
 Qed.
 
-Lemma c12_returns_file_partial_proof : C12_returns_file_partial.
+Lemma c12_returns_file_proof : C12_returns_file.
 Proof.
   split; [|split].
   - intros s (st & sa & sched & ->) H. apply (C12_FileSource.fs_closing st sa sched). apply is_close_eq. exact H.
+  - intros s (st & sa & sched & ->) Ht Hd. apply C12_FileLive.fs_progress; assumption.
+  - exists C12_FileLive.rank. intros s (st & sa & sched0 & ->) Ht sched Hf.
+    apply C12_FileLive.fs_fair_termination; assumption.
+Qed.
+
+Lemma c12_file_blocking_points_proof : C12_file_blocking_points.
+Proof.
+  split.
   - intros s c (st & sa & sched & ->) Ht Hr. apply (C12_FileSource.fs_run_escape st sa sched c); assumption.
   - intros s k f Ht Hk Hp. apply C12_FileSource.neq_by_files. apply (C12_FileSource.fs_file_escape s k f); assumption.
 Qed.
@@ -58,7 +66,7 @@ Lemma c12_returns_proof : C12_returns.
 Proof.
   repeat split; try apply c12_returns_eternal_proof; try apply c12_returns_joining_proof;
     try apply c12_returns_subscription_proof; try apply c12_returns_multiplexed_proof;
-    apply c12_returns_file_partial_proof.
+    apply c12_returns_file_proof.
 Qed.
 
 Lemma c12_no_call_after_proof : C12_no_call_after.
